@@ -134,7 +134,24 @@ def run(ctx):
       data['trip_idx'] = tri
       max_iter, out_iter = 200, 50
       ctx.hist('noisy_triplets', True)
-    if name == 'SCML' and not noisy and rng.random() < 0.5:
+    easy = (name == 'SCML' and i % 6 == 2)
+    if easy:
+      # triplets that a few steps satisfy with a margin (two tight, well separated groups): checkpoints without any violated
+      # triplet occur early; the documented scheme goes on (the averaged sub-gradient keeps shrinking the weights, and with
+      # them beta * sum(w)), so the best checkpoint is a later one
+      data = dict(data)
+      cen = np.zeros((2, d))
+      cen[1, 0] = 10.0
+      lab = np.repeat([0, 1], 10)
+      Xe = fits.grid(cen[lab] + 0.3 * rng.standard_normal((20, d)), 6)
+      a = rng.integers(0, 20, size=30)
+      ppos = np.array([rng.choice(np.flatnonzero((lab == lab[k]) & (np.arange(20) != k))) for k in a])
+      pneg = np.array([rng.choice(np.flatnonzero(lab != lab[k])) for k in a])
+      data['X'] = Xe
+      data['trip_idx'] = np.column_stack([a, ppos, pneg])
+      max_iter, out_iter = 300, 7
+      ctx.hist('easy_triplets', True)
+    if name == 'SCML' and not noisy and not easy and rng.random() < 0.5:
       # few triplets (still >= n_features): mini-batches are drawn with replacement, so batch_size may exceed their number
       data = dict(data)
       m = int(rng.integers(d, 10))
@@ -144,7 +161,8 @@ def run(ctx):
       few = None
     kw = dict(max_iter=max_iter, output_iter=out_iter,
               batch_size=int(rng.integers(1, 14)) if (few is None or rng.random() < 0.3) else few + int(rng.integers(1, 6)),
-              beta=float(rng.choice([1e-5, 1e-3])), gamma=float(rng.choice([5e-3, 5e-2, 0.5, 0.5, 1e10, 1e12])),      # the weights scale as 1 / gamma: down to 1e-12 and below
+              beta=float(rng.choice([1e-5, 1e-3])) if not easy else 1e-3,
+              gamma=float(rng.choice([5e-3, 5e-2, 0.5, 0.5, 1e10, 1e12])) if not easy else 5e-3,      # the weights scale as 1 / gamma: down to 1e-12 and below
               n_basis=int(rng.integers(d + 1, 5 * d)), random_state=int(rng.integers(0, 1000)))
     bkind = ['triplet_diffs', 'lda', 'array'][int(rng.integers(0, 3))]
     if name == 'SCML' and bkind == 'lda':
